@@ -325,6 +325,22 @@ func runC08(c *core.Ctx) {
 			if owner == nil {
 				return
 			}
+			// a settings struct filled in a local and copied by value into the codec belongs to the codec
+			for d := 0; d < 3 && p.DeclMethod(owner, "HandleRead") == nil; d++ {
+				outer := containerOf(base)
+				if outer == nil {
+					break
+				}
+				pt, ok := outer.Type().(*types.Pointer)
+				if !ok {
+					break
+				}
+				on, _ := types.Unalias(pt.Elem()).(*types.Named)
+				if on == nil {
+					break
+				}
+				owner, base = on, outer
+			}
 			hr := p.DeclMethod(owner, "HandleRead")
 			if hr == nil || !fieldUsedAsBound(hr, f) && !paramUsedAsBound(fn, fn.Params[pi]) {
 				return
@@ -715,14 +731,14 @@ func runC08(c *core.Ctx) {
 							okb = true
 						}
 						// guard on the difference itself: (x-y) >= 0
-						if cd.Op == token.GEQ && cd.X == ssa.Value(b) && core.EdgeDominates(ifi.Block(), cd.True, in.Block()) {
+						if cd.Op == token.GEQ && sameDiff(cd.X, b) && core.EdgeDominates(ifi.Block(), cd.True, in.Block()) {
 							if k, isC := core.ConstInt(cd.Y); isC && k == 0 {
 								okb = true
 							}
 						}
 					}
 					for _, cm := range falseAt(p, in) {
-						if cm.Op == token.LSS && cm.X == ssa.Value(b) {
+						if cm.Op == token.LSS && sameDiff(cm.X, b) {
 							if k, isC := core.ConstInt(cm.Y); isC && k == 0 {
 								okb = true
 							}
@@ -733,6 +749,43 @@ func runC08(c *core.Ctx) {
 			})
 		}
 	}
+}
+
+// sameDiff: v is the difference b itself or the same difference computed again (`off := len(a)-len(b); off >= 0`
+// in a helper, `a[:len(a)-len(b)]` at the use).
+func sameDiff(v ssa.Value, b *ssa.BinOp) bool {
+	if v == ssa.Value(b) {
+		return true
+	}
+	d, ok := v.(*ssa.BinOp)
+	return ok && d.Op == token.SUB && sameLenExpr(d.X, b.X) && sameConfigExpr(d.Y, b.Y)
+}
+
+// containerOf: local is a struct built in place whose value is copied into a field of another freshly built
+// struct (`cfg := T{...}; return &codec{cfg: cfg}`); returns that struct's allocation.
+func containerOf(local ssa.Value) ssa.Value {
+	al, ok := local.(*ssa.Alloc)
+	if !ok || al.Referrers() == nil {
+		return nil
+	}
+	for _, ref := range *al.Referrers() {
+		ld, ok := ref.(*ssa.UnOp)
+		if !ok || ld.Op != token.MUL || ld.Referrers() == nil {
+			continue
+		}
+		for _, r2 := range *ld.Referrers() {
+			st, ok := r2.(*ssa.Store)
+			if !ok || st.Val != ssa.Value(ld) {
+				continue
+			}
+			if fa, ok := st.Addr.(*ssa.FieldAddr); ok {
+				if outer, ok := fa.X.(*ssa.Alloc); ok {
+					return outer
+				}
+			}
+		}
+	}
+	return nil
 }
 
 func sameLenExpr(a, b ssa.Value) bool {
